@@ -20,7 +20,7 @@ import traceback
 
 VERIF_DIR = os.path.dirname(os.path.dirname(os.path.abspath(__file__)))
 MAX_VIOL_PER_SHARD = 12
-MAX_SAMPLES = 6
+MAX_SAMPLES = 8
 
 
 def _jsonable(x, depth=0):
@@ -54,6 +54,7 @@ class Ctx(object):
         self.classes = collections.Counter()
         self.nontrivial = set()
         self.samples = []
+        self._sampled = set()
         self.violations = []
         self.nviol = 0
         self.counters = collections.Counter()
@@ -68,8 +69,18 @@ class Ctx(object):
         self.classes[cls] += n
         if nontrivial:
             self.nontrivial.add(cls if key is None else "%s|%s" % (cls, key))
-        if sample is not None and len(self.samples) < MAX_SAMPLES:
-            self.samples.append(_jsonable({"class": cls, "case": sample}))
+        if len(self.samples) < MAX_SAMPLES and cls not in self._sampled:
+            # evidence samples: the first case of each class, written out (explicit `sample` = the actual inputs)
+            if sample is not None:
+                self._sampled.add(cls)
+                self.samples.append(_jsonable({"class": cls, "case": sample}))
+            elif key is not None and self.evals > 0:
+                self._sampled.add(cls)
+                self.samples.append(_jsonable({"class": cls, "case_key": key}))
+
+    def want(self, cls):
+        """True while a written-out sample for class `cls` is still wanted (so callers only build the dict then)."""
+        return len(self.samples) < MAX_SAMPLES and cls not in self._sampled
 
     def count(self, name, n=1):
         self.counters[name] += n
@@ -178,7 +189,7 @@ def run_property(prop, tier, seed, jobs=None, only=None):
         counters.update(r["counters"])
         nontrivial |= r["nontrivial"]
         for s in r["samples"]:
-            if len(samples) < 12:
+            if len(samples) < 40:
                 samples.append(s)
         violations += r["violations"]
         nviol += r["nviol"]
@@ -237,7 +248,7 @@ def run_property(prop, tier, seed, jobs=None, only=None):
             "evaluations": int(evals),
             "distinct_nontrivial": len(nontrivial),
             "rule": mod.RULE,
-            "samples": samples or [{"note": "no sample recorded"}],
+            "samples": (sorted(samples, key=lambda x: 0 if "case" in x else 1)[:16]) or [{"note": "no sample recorded"}],
             "classes": dict(sorted(classes.items())),
             "counters": dict(sorted(counters.items())),
             "shards": len(results),
